@@ -592,7 +592,11 @@ func (target *BuildTarget) resolveOneDependency(graph *BuildGraph, dep *depInfo)
 	if depTarget == nil {
 		return fmt.Errorf("Couldn't find dependency %s", dep.declared)
 	}
-	dep.declared = &depTarget.Label // saves memory by not storing the label twice once resolved
+	// Saves memory by not storing the label twice once resolved. Needs the lock, other goroutines
+	// (e.g. the cycle detector) may be reading this target's dependencies at the same time.
+	target.mutex.Lock()
+	dep.declared = &depTarget.Label
+	target.mutex.Unlock()
 
 	providesLabels, ok := depTarget.provideFor(target)
 	if !ok {
